@@ -32,7 +32,7 @@ for d in sorted(glob.glob(os.path.join(VERIF, "seeded", "C*", "m*"))):
     tot += 1
     caught_own += bool(own and own["exit"] != 0)
     rows.append("| %s/%s | %s | %s | %s | %s | %s |" % (prop, name, meta.get("implementation", "?"), desc.replace("|", "/"), how.replace("|", "/"), " ".join(others) or "-", " ".join(missed) or "-"))
-print("State after strengthening: %d seeded changes (seven rounds of two or three per property, an eighth of two for eight properties), %d of them are caught by the quick tier of the check of the property they were aimed at (result.json beside each patch; 'also caught by' / 'not caught by' list the related checks that were run against it).\n" % (tot, caught_own))
+print("State after strengthening: %d seeded changes (ten rounds; two or three changes per property and round), %d of them are caught by the quick tier of the check of the property they were aimed at (result.json beside each patch; 'also caught by' / 'not caught by' list the related checks that were run against it).\n" % (tot, caught_own))
 print("| change | impl | what was changed | own check reports (signature) | also caught by | run but not caught by |")
 print("|---|---|---|---|---|---|")
 print("\n".join(rows))
